@@ -117,5 +117,63 @@ theorem fromSlicePadded_accept_iff (t : Buf) : (fromSlicePadded t).isSome = true
       obtain ⟨s, e⟩ := r
       exact fromSlicePadded_complete t s e hs
 
+/-- **the tree the whole-input parse returns is the tree the TEXT denotes** -/
+theorem fromSlicePadded_tree (t : Buf) (tr : Json) (h : fromSlicePadded t = some tr) : docTree false t = some tr := by
+  have hpad : StrIn.pad t = t ++ StrIn.padTail := rfl
+  unfold fromSlicePadded DomP.value at h
+  rw [skipSpace_spec] at h
+  cases hb : (StrIn.pad t)[skipWs (StrIn.pad t) 0]? with
+  | none =>
+    rw [hb] at h
+    simp only [Option.map_none] at h
+    cases hd : dispatch (Spec.fuelFor (StrIn.pad t)) (StrIn.pad t) none with
+    | ok t' e' => exact absurd hd (dispatch_none _ _ t' e')
+    | err c p => rw [hd] at h; cases h
+    | fuel => rw [hd] at h; cases h
+  | some c =>
+    rw [hb] at h
+    simp only [Option.map_some] at h
+    cases hd : dispatch (Spec.fuelFor (StrIn.pad t)) (StrIn.pad t) (some (c, skipWs (StrIn.pad t) 0 + 1)) with
+    | err c' p' => rw [hd] at h; cases h
+    | fuel => rw [hd] at h; cases h
+    | ok t' e =>
+      rw [hd] at h
+      simp only at h
+      split at h
+      · rename_i hcond
+        obtain ⟨hle, hws⟩ := hcond
+        have htr : t' = tr := Option.some.inj h
+        subst htr
+        have hnd := pad_not_digit t e hle hws
+        have hv := (strict_of_parse (StrIn.pad t) (Spec.fuelFor (StrIn.pad t))).1 _ c t' e hb hd hnd
+        -- the parser's tree is the specification's tree of the padded copy …
+        obtain ⟨t2, ht2, hdisp⟩ := (parse_of_strict (StrIn.pad t) (Spec.fuelFor (StrIn.pad t))).1 _ e hv
+        have := hdisp c hb
+        rw [hd] at this
+        have ht2e : t' = t2 := by
+          simp only [DRes.ok.injEq] at this; exact this.1
+        subst ht2e
+        -- … which is the tree of the text
+        have hw := ((progress true (StrIn.pad t) _ _ e).1 hv).1
+        rw [hpad] at ht2 hw
+        have ht3 := (GrammarPad.tree_prefix false t StrIn.padTail _).1 _ t' e ht2 hle
+        have hs0 : skipWs t 0 = skipWs (t ++ StrIn.padTail) 0 := GrammarPad.skipWs_prefix t StrIn.padTail _ 0 rfl (by omega)
+        -- at the text's own fuel
+        rw [hpad] at hv
+        have hv1 := (GrammarPad.value_prefix true t StrIn.padTail _).1 _ e hv hle
+        have hv2 := Spec.value_canonical true t _ _ _ hv1 (by simp)
+        obtain ⟨t4, ht4, _⟩ := (parse_of_strict t (Spec.fuelFor t)).1 _ e hv2
+        have hfle : Spec.fuelFor t ≤ Spec.fuelFor (t ++ StrIn.padTail) := by
+          unfold Spec.fuelFor; simp; omega
+        have ht5 := GrammarPad.tree_mono_le false t _ _ _ _ hfle ht4
+        rw [ht3] at ht5
+        have : t' = t4 := by
+          simp only [Option.some.injEq, Prod.mk.injEq] at ht5; exact ht5.1
+        subst this
+        unfold docTree
+        rw [hs0, ht4]
+        simp only [hws, if_true]
+      · cases h
+
 end DomP
 end Sonic
